@@ -3,6 +3,7 @@ package main
 import (
 	"bytes"
 	"fmt"
+	"regexp"
 	"strings"
 	"time"
 
@@ -394,11 +395,29 @@ func c19LocTable(t string) string {
 		}
 		ct = ct.Elem()
 	}
+	// zones of types nested in Map(…) / Tuple(…): every single-quoted piece of the string
+	for i := 0; i < len(t); i++ {
+		if t[i] != '\'' {
+			continue
+		}
+		j := strings.IndexByte(t[i+1:], '\'')
+		if j < 0 {
+			break
+		}
+		add(t[i+1 : i+1+j])
+		add(strings.Trim(t[i+1:i+1+j], "' "))
+		i += j + 1
+	}
+	for _, m := range zoneLike.FindAllStringSubmatch(t, -1) {
+		add(m[1])
+	}
 	if len(out) == 0 {
 		return "."
 	}
 	return strings.Join(out, ",")
 }
+
+var zoneLike = regexp.MustCompile(`'([A-Za-z0-9_/+\-]*)'`)
 
 func isASCII(s string) bool {
 	for i := 0; i < len(s); i++ {
